@@ -70,16 +70,23 @@ def repo_headers(which):
     return [os.path.join(REPO, "include", w) for w in which]
 
 
+# harness headers each kind of TU can include (transitively); None = all of them (drivers)
+H_IFACE = ["common/eigen_assert_hook.hpp", "common/iface.hpp"]
+H_OPT = H_IFACE + ["common/iface_opt.hpp", "common/costprog.hpp", "common/rng.hpp", "common/user_maps.hpp"]
+
+
 class TU:
-    def __init__(self, src, defines=(), repo=("SplineTrajectory.hpp",), tag=None):
+    def __init__(self, src, defines=(), repo=("SplineTrajectory.hpp",), tag=None, hdeps=None):
         self.src = os.path.join(HARNESS, src)
         self.defines = list(defines)
         self.repo = list(repo)
         self.tag = tag or os.path.basename(src)
+        self.hdeps = hdeps
 
     def key(self, variant):
         v = VARIANTS[variant]
-        deps = [self.src] + harness_headers() + repo_headers(self.repo)
+        hs = harness_headers() if self.hdeps is None else [os.path.join(HARNESS, h) for h in self.hdeps]
+        deps = [self.src] + hs + repo_headers(self.repo)
         return _sha(v["cxx"], " ".join(BASE + v["cflags"]), " ".join(self.defines), *[_fhash(d) for d in deps])
 
     def cmd(self, variant, out):
@@ -89,34 +96,40 @@ class TU:
 
 
 def spline_adapters(dims, orders=(3, 5, 7)):
-    return [TU("adapters/spline_adapter.cpp", ["VORDER=%d" % o, "VDIM=%d" % d], tag="spline_%d_%d" % (o, d)) for o in orders for d in dims]
+    return [TU("adapters/spline_adapter.cpp", ["VORDER=%d" % o, "VDIM=%d" % d], tag="spline_%d_%d" % (o, d), hdeps=H_IFACE + ["adapters/ppoly_adapter_impl.hpp"]) for o in orders for d in dims]
 
 
 def ppoly_adapters(cells=PPOLY_CELLS):
-    return [TU("adapters/ppoly_adapter.cpp", ["VDIM=%d" % d, "VPORD=%d" % o], tag="ppoly_%d_%d" % (d, o)) for d, o in cells]
+    return [TU("adapters/ppoly_adapter.cpp", ["VDIM=%d" % d, "VPORD=%d" % o], tag="ppoly_%d_%d" % (d, o), hdeps=H_IFACE + ["adapters/ppoly_adapter_impl.hpp"]) for d, o in cells]
 
 
 def opt_adapters(dims=OPT_DIMS, orders=(3, 5, 7)):
     both = ("SplineTrajectory.hpp", "SplineOptimizer.hpp")
-    return [TU("adapters/opt_adapter.cpp", ["VORDER=%d" % o, "VDIM=%d" % d], repo=both, tag="opt_%d_%d" % (o, d)) for o in orders for d in dims]
+    return [TU("adapters/opt_adapter.cpp", ["VORDER=%d" % o, "VDIM=%d" % d], repo=both, tag="opt_%d_%d" % (o, d), hdeps=H_OPT) for o in orders for d in dims]
 
 
-COMMON = [TU("common/oracle.cpp", repo=()), TU("common/registry.cpp", repo=())]
+COMMON = [TU("common/oracle.cpp", repo=(), hdeps=["common/oracle.hpp", "common/iface.hpp"]), TU("common/registry.cpp", repo=(), hdeps=H_OPT)]
+COSTPROG = TU("common/costprog.cpp", repo=(), hdeps=["common/costprog.hpp", "common/rng.hpp"])
 
 
-def target(name, tier="quick"):
-    """returns (list of TUs, extra link libs)"""
+def target(name, tier="quick", variant="plain"):
+    """returns (list of TUs, extra link libs).  Sanitizer / poisoning variants use a reduced set of cells (one per
+    structural class: DIM=1 column-major, DIM=3 fixed small, DIM=4 the generic >3 branch); drivers enumerate the
+    cells that are registered, so the reduction needs no other change."""
     thorough = tier == "thorough"
+    reduced = variant in ("asan", "nanpoison", "omp", "tsan")
     if name == "spline_driver":
-        return [TU("spline_driver.cpp", repo=())] + COMMON + spline_adapters(ALL_DIMS if thorough else QUICK_DIMS), ["-lquadmath"]
+        dims = [1, 3, 4] if reduced else (ALL_DIMS if thorough else QUICK_DIMS)
+        return [TU("spline_driver.cpp", repo=())] + COMMON + spline_adapters(dims), ["-lquadmath"]
     if name == "ppoly_driver":
-        return [TU("ppoly_driver.cpp", repo=())] + COMMON + ppoly_adapters() + spline_adapters([1, 3]), ["-lquadmath"]
+        cells = [(d, o) for d in (1, 3) for o in (-1, 4, 8, 12)] if reduced else PPOLY_CELLS
+        return [TU("ppoly_driver.cpp", repo=())] + COMMON + ppoly_adapters(cells) + spline_adapters([1, 3]), ["-lquadmath"]
     if name == "opt_driver":
-        both = ("SplineTrajectory.hpp", "SplineOptimizer.hpp")
-        return [TU("opt_driver.cpp", repo=()), TU("common/costprog.cpp", repo=())] + COMMON + opt_adapters() + spline_adapters(OPT_DIMS), ["-lquadmath", "-lpthread"]
+        dims = [1, 3] if reduced else OPT_DIMS
+        return [TU("opt_driver.cpp", repo=()), COSTPROG] + COMMON + opt_adapters(dims) + spline_adapters(dims), ["-lquadmath", "-lpthread"]
     if name == "conc_driver":
         both = ("SplineTrajectory.hpp", "SplineOptimizer.hpp")
-        return [TU("conc_driver.cpp", repo=both), TU("common/costprog.cpp", repo=())], ["-lpthread"]
+        return [TU("conc_driver.cpp", repo=both), COSTPROG], ["-lpthread"]
     if name == "timemap_driver":
         both = ("SplineTrajectory.hpp", "SplineOptimizer.hpp")
         return [TU("timemap_driver.cpp", repo=both)], []
@@ -149,39 +162,67 @@ def _compile(tu, variant, log):
     return out, True
 
 
-def build(name, variant="plain", tier="quick", log=lambda s: print(s, file=sys.stderr)):
-    """Builds (or reuses) the driver binary; returns its path."""
+def build_many(specs, log=lambda s: print(s, file=sys.stderr)):
+    """specs: list of (name, variant, tier).  Compiles every missing object of all of them in ONE pool (so that the
+    long translation units of different drivers overlap), then links.  Returns {spec: binary path}."""
     os.makedirs(BUILD, exist_ok=True)
-    tus, libs = target(name, tier)
     lockf = open(os.path.join(BUILD, ".lock"), "w")
     fcntl.flock(lockf, fcntl.LOCK_EX)
     try:
-        keys = [tu.key(variant) for tu in tus]
-        bkey = _sha(name, variant, " ".join(libs), *keys)[:32]
-        bindir = os.path.join(BUILD, "bin", variant)
-        os.makedirs(bindir, exist_ok=True)
-        binp = os.path.join(bindir, "%s-%s" % (name, bkey))
-        if os.path.exists(binp):
-            os.utime(binp, None)
-            return binp
+        plan = {}
+        jobs = {}
+        for spec in specs:
+            name, variant, tier = spec
+            tus, libs = target(name, tier, variant)
+            keys = [tu.key(variant) for tu in tus]
+            bkey = _sha(name, variant, " ".join(libs), *keys)[:32]
+            bindir = os.path.join(BUILD, "bin", variant)
+            os.makedirs(bindir, exist_ok=True)
+            binp = os.path.join(bindir, "%s-%s" % (name, bkey))
+            plan[spec] = (binp, tus, libs)
+            if os.path.exists(binp):
+                os.utime(binp, None)
+                continue
+            for tu, k in zip(tus, keys):
+                jobs[(k, variant)] = (tu, variant)
         t0 = time.time()
-        objs = []
-        with concurrent.futures.ThreadPoolExecutor(max_workers=JOBS) as ex:
-            futs = [ex.submit(_compile, tu, variant, log) for tu in tus]
-            for f in futs:
-                objs.append(f.result()[0])
-        v = VARIANTS[variant]
-        tmp = binp + ".tmp%d" % os.getpid()
-        r = subprocess.run([v["cxx"], "-o", tmp] + objs + v["ldflags"] + libs, capture_output=True, text=True)
-        if r.returncode != 0:
-            raise BuildError("link failed: %s [%s]\n%s" % (name, variant, r.stderr[-4000:]))
-        os.replace(tmp, binp)
-        log("built %s [%s/%s] in %.1fs" % (name, variant, tier, time.time() - t0))
-        prune()
-        return binp
+        if jobs:
+            # longest first: driver main TUs, then septic adapters
+            def weight(j):
+                tu = j[0]
+                w = 0 if "adapter" in tu.src else 100
+                w += 10 * sum(1 for d in tu.defines if d == "VORDER=7") + 5 * sum(1 for d in tu.defines if d == "VORDER=5")
+                return -w
+            ordered = sorted(jobs.values(), key=weight)
+            with concurrent.futures.ThreadPoolExecutor(max_workers=JOBS) as ex:
+                futs = [ex.submit(_compile, tu, variant, log) for tu, variant in ordered]
+                for f in futs:
+                    f.result()
+        out = {}
+        for spec, (binp, tus, libs) in plan.items():
+            name, variant, tier = spec
+            if not os.path.exists(binp):
+                objs = [_compile(tu, variant, log)[0] for tu in tus]
+                v = VARIANTS[variant]
+                tmp = binp + ".tmp%d" % os.getpid()
+                r = subprocess.run([v["cxx"], "-o", tmp] + objs + v["ldflags"] + libs, capture_output=True, text=True)
+                if r.returncode != 0:
+                    raise BuildError("link failed: %s [%s]\n%s" % (name, variant, r.stderr[-4000:]))
+                os.replace(tmp, binp)
+                log("built %s [%s/%s]" % (name, variant, tier))
+            out[spec] = binp
+        if jobs:
+            log("build phase %.1fs (%d objects compiled)" % (time.time() - t0, len(jobs)))
+            prune()
+        return out
     finally:
         fcntl.flock(lockf, fcntl.LOCK_UN)
         lockf.close()
+
+
+def build(name, variant="plain", tier="quick", log=lambda s: print(s, file=sys.stderr)):
+    """Builds (or reuses) the driver binary; returns its path."""
+    return build_many([(name, variant, tier)], log)[(name, variant, tier)]
 
 
 def prune(max_bytes=int(os.environ.get("VERIF_CACHE_BYTES", str(6 * 1024 ** 3)))):
